@@ -5,9 +5,10 @@ import Verif.Driver.TreeDist
 import Verif.Driver.Heap
 import Verif.Driver.Cache
 import Verif.Driver.Wordlist
+import Verif.Driver.Cognates
 open Verif.Driver
 
-def handlers : List (List (List String) → Option String) := [handleAlign, handleSC, handleCluster, handleTree, handleHeap, handleCache, handleWL]
+def handlers : List (List (List String) → Option String) := [handleAlign, handleSC, handleCluster, handleTree, handleHeap, handleCache, handleWL, handleCog]
 
 def dispatch (line : String) : String :=
   let fs := fields line
